@@ -413,7 +413,10 @@ def diff_files(real, model, skip_attr_values=()):
         if v['data'].size != w['data'].size:
             out.append('variable %s size: real %r model %d' % (v['name'], v['shape'], w['data'].size))
             continue
-        if not np.array_equal(v['mask'], w['mask']):
+        # numpy.ma masks the result of 0/0 (so netCDF4 writes the fill value) where IEEE arithmetic, and the
+        # model at Float, gives NaN: a cell the real file leaves unwritten may be a written NaN in the model
+        wm = w['mask'] | (v['mask'] & np.isnan(w['data']))
+        if not np.array_equal(v['mask'], wm):
             out.append('variable %s written cells: real %r model %r' % (v['name'], (~v['mask']).astype(int).tolist()[:40], (~w['mask']).astype(int).tolist()[:40]))
             continue
         keep = ~v['mask']
@@ -448,7 +451,9 @@ def diff_dbm(a, b, tol_groups, path):
         ok = same(a['delta_groups'], b['delta_groups']) if tol_groups == 0 else near(a['delta_groups'], b['delta_groups'], tol_groups)
         if not ok:
             out.append((path + 'delta_groups', a['delta_groups'].tolist(), b['delta_groups'].tolist()))
-        if not same(a['delta'], b['delta']):
+        # with group contributions (calc_delta > 0) dbm_p.coefs overwrites delta_ij at every call (and, as
+        # written, in the object's own array): the matrix is not a definition then
+        if a['calc_delta'] <= 0 and b['calc_delta'] <= 0 and not same(a['delta'], b['delta']):
             out.append((path + 'delta', a['delta'].tolist(), b['delta'].tolist()))
         na, nb = [u['name'] for u in a['user_data']], [u['name'] for u in b['user_data']]
         if sorted(na) != sorted(nb):
@@ -589,6 +594,19 @@ nc = model_share.tamoc_nc_file(os.path.join(tempfile.mkdtemp(), 'p.nc'), 't', 's
 dispersed_phases.save_particle_to_nc_file(nc, c, [p1, p2], [1., 1.])      # KeyError: 'methane'
 ''',
 }
+REPRO['resave-raises:sbm'] = '''import numpy as np, tempfile, os
+from tamoc import ambient, dbm, single_bubble_model
+d = tempfile.mkdtemp(); z = np.linspace(0., 400., 30)
+T = 277. + 15. * np.exp(-z / 200.); S = 34. + z / 800.; P = ambient.compute_pressure(z, T, S, 0)
+nc = ambient.create_nc_db(os.path.join(d, 'prf.nc'), 's', 'src', 'sea', 0., 0., 0.)
+nc = ambient.fill_nc_db(nc, np.vstack((z, T, S, P)).T, ['z', 'temperature', 'salinity', 'pressure'], ['m', 'K', 'psu', 'Pa'], ['a'] * 4, 0)
+prf = ambient.Profile(nc, chem_names='all'); prf.close_nc()
+m = single_bubble_model.Model(prf)
+m.simulate(dbm.FluidParticle(['methane']), np.array([0., 0., 100.]), 0.005, np.array([1.]), delta_t=10.)
+m.save_sim(os.path.join(d, 'a.nc'), 'prf.nc', 'info')
+m2 = single_bubble_model.Model(simfile=os.path.join(d, 'a.nc'))
+m2.save_sim(os.path.join(d, 'b.nc'), 'prf.nc', 'info')   # IndexError: K_T0 was read as a 0-d masked array, K_T0[i] fails
+'''
 REPRO['not-saved:user_data.t_bio'] = REPRO['not-saved:user_data.C_pen'] = REPRO['not-saved:user_data.C_pen_T'] = REPRO['not-saved:user_data.k_bio']
 REPRO['not-saved:insoluble.t_bio'] = REPRO['not-saved:insoluble.fp_type'] = REPRO['not-saved:insoluble.k_bio']
 _BPM = '''import numpy as np, tempfile, os
@@ -672,6 +690,11 @@ def report_losses(ctx, diffs, orig_particles, where, spec, prefix=''):
                       (where, field, str(a)[:80], str(b)[:80]), case)
 
 
+def zero_group_row(ps):
+    return any(p['dbm']['sol'] and p['dbm']['calc_delta'] > 0 and (np.abs(p['dbm']['delta_groups']).sum(axis=1) == 0).any()
+               for p in ps)
+
+
 def user_keys_differ(ps):
     sets = [tuple(sorted(p['dbm']['user_data'] and [u['name'] for u in p['dbm']['user_data']])) for p in ps
             if p['dbm']['sol'] and p['dbm']['user_data']]
@@ -685,7 +708,7 @@ def check_particle_list(ctx, job, tmp, idx, spec):
     objs, chem, KT0 = sc.build_particle_list(spec)
     recs = [abs_particle(o, ptype) for o in objs]
     ctx.count('list ptype=%d %s' % (ptype, spec['kind']))
-    args = [N(ptype)] + names(chem) + enc_particles(recs) + [V(KT0)]
+    args = [N(ptype)] + names(chem) + enc_particles(recs) + [V(KT0), F(spec['Ta'])]
 
     def write(path, particles, chem_names, K_T0):
         nc = model_share.tamoc_nc_file(path, 'particles', 'none', 'none')
@@ -721,8 +744,12 @@ def check_particle_list(ctx, job, tmp, idx, spec):
         with sc.quiet():
             loaded, chem2 = dispersed_phases.load_particle_from_nc_file(nc)
     except Exception as e:
-        ctx.violation('load-raises:particles', 'load_particle_from_nc_file raises %s on a file the writer produced' % type(e).__name__,
-                      {'error': '%s: %s' % (type(e).__name__, e), 'spec': sc.jsonable(spec)})
+        key = 'not-restored:delta_groups:zero-row' if zero_group_row(recs) else 'load-raises:particles'
+        case = {'error': '%s: %s' % (type(e).__name__, e), 'spec': sc.jsonable(spec)}
+        if key in REPRO:
+            case['stand_alone_reproduction'] = REPRO[key]
+        ctx.count('violation ' + key)
+        ctx.violation(key, 'load_particle_from_nc_file raises %s on a file the writer produced' % type(e).__name__, case)
         return
     finally:
         nc.close()
@@ -736,7 +763,8 @@ def check_particle_list(ctx, job, tmp, idx, spec):
     f2 = os.path.join(tmp, 'pl%d_b.nc' % idx)
     try:
         with sc.quiet():
-            write(f2, loaded if ptype else loaded[0], chem2, [q.K_T for q in loaded] if ptype else loaded[0].K_T)
+            write(f2, loaded if ptype else loaded[0], chem2,
+                  np.array([q.K_T for q in loaded]) if ptype else float(loaded[0].K_T))
         d2 = dump_nc(f2)
         job.add('SaveLoad.particles.resave', args, 'file', {'real': section(d2), 'what': 're-saved particle list %d' % idx, 'skip': ()})
         soft = [x for x in diff_files(section(d1), section(d2)) if 'delta_groups' not in x]
@@ -848,9 +876,12 @@ def check_sim(ctx, job, cdir, kind, m, spec, tag):
         with sc.quiet():
             m2 = Model(simfile=f1)
     except Exception as e:
-        ctx.count('violation load-raises:' + kind)
-        ctx.violation('load-raises:' + kind, '%s: load_sim raises %s on the file save_sim wrote' % (where, type(e).__name__),
-                      {'error': '%s: %s' % (type(e).__name__, e), 'trace': traceback.format_exc()[-600:], 'spec': sc.jsonable(spec)})
+        key = 'not-restored:delta_groups:zero-row' if zero_group_row(rec['particles']) else 'load-raises:' + kind
+        ctx.count('violation ' + key)
+        case = {'error': '%s: %s' % (type(e).__name__, e), 'trace': traceback.format_exc()[-600:], 'spec': sc.jsonable(spec)}
+        if key in REPRO:
+            case['stand_alone_reproduction'] = REPRO[key]
+        ctx.violation(key, '%s: load_sim raises %s on the file save_sim wrote' % (where, type(e).__name__), case)
         return
     nc = Dataset(f1)
     try:
@@ -886,8 +917,12 @@ def check_sim(ctx, job, cdir, kind, m, spec, tag):
         with sc.quiet():
             m2.save_sim(f2, 'prf.nc', 'C18 profile info')
         d2 = dump_nc(f2)
-        job.add('SaveLoad.%s.resave' % kind, args, 'file', {'real': d2, 'what': 're-saved ' + tag, 'skip': DATE_ATTRS})
-        soft = [x for x in diff_files(d1, d2, skip_attr_values=DATE_ATTRS) if 'delta_groups' not in x]
+        # the model's writer on the reloaded object (its particles carry the state LagElement.update gave them)
+        job.add('SaveLoad.%s.save' % kind, enc_header(header_of(d2)) + ENC[kind](rec2), 'file',
+                {'real': d2, 'what': 're-saved ' + tag, 'skip': ()})
+        state_vars = ('integrate', 'tp', 'xp', 'yp', 'zp')     # state of a bent-plume particle, not its definition
+        soft = [x for x in diff_files(d1, d2, skip_attr_values=DATE_ATTRS)
+                if 'delta_groups' not in x and not any(x.startswith('variable %s ' % v) for v in state_vars)]
         if soft:
             ctx.violation('resave-differs:' + kind, '%s: saving the reloaded simulation gives a different file' % where,
                           {'differences': soft[:5], 'spec': sc.jsonable(spec)})
@@ -897,8 +932,13 @@ def check_sim(ctx, job, cdir, kind, m, spec, tag):
             ctx.violation('reload-differs:' + field, '%s: second reload differs from the first in %s' % (where, field),
                           {'field': field, 'first': a, 'second': b, 'spec': sc.jsonable(spec)})
     except Exception as e:
-        ctx.violation('resave-raises:' + kind, '%s: re-saving / re-loading the reloaded simulation raises %s' % (where, type(e).__name__),
-                      {'error': '%s: %s' % (type(e).__name__, e), 'trace': traceback.format_exc()[-600:], 'spec': sc.jsonable(spec)})
+        tr = traceback.format_exc()
+        key = 'resave-raises:sbm' if 'single_bubble_model.py' in tr else 'resave-raises:' + kind
+        ctx.count('violation ' + key)
+        case = {'error': '%s: %s' % (type(e).__name__, e), 'trace': tr[-600:], 'spec': sc.jsonable(spec)}
+        if key in REPRO:
+            case['stand_alone_reproduction'] = REPRO[key]
+        ctx.violation(key, '%s: re-saving / re-loading the reloaded simulation raises %s' % (where, type(e).__name__), case)
     # --- text export carries the same numbers as the binary file
     try:
         base = os.path.join(cdir, 'txt')
